@@ -119,7 +119,20 @@ func JudgeLoose(sc *Scenario, md *Model, rec *StepRecord) []Finding {
 		}
 		snap := md.SnapOf(m)
 		if w.SetIndex != snap.Index {
-			return fmt.Errorf("names set %d, observed under %s", w.SetIndex, snap)
+			// In run mode the node's own loop-back travels on its own goroutine: the signature of an EARLIER observation may
+			// complete that observation's VAA after the message has been observed again under a newer set (the harness cannot
+			// know in which step it lands). Such a VAA rightly names the earlier observation's set: accept any set the message
+			// was observed under, and verify against that one.
+			var earlier *GSet
+			for _, g := range md.SnapsOf(m) {
+				if g != nil && g.Index == w.SetIndex {
+					earlier = g
+				}
+			}
+			if earlier == nil {
+				return fmt.Errorf("names set %d, observed under %s", w.SetIndex, snap)
+			}
+			snap = earlier
 		}
 		if !bytes.Equal(w.Body, m.Body) {
 			return fmt.Errorf("body differs")
